@@ -37,6 +37,7 @@ func (Prop) Plan(t vp.Tier) []vp.Stage {
 		{Name: "tab-exh", NBatches: nb, TimeoutS: 3000, TimeoutIsViolation: true},
 		{Name: "random", NBatches: nb, TimeoutS: 3000, TimeoutIsViolation: true},
 		{Name: "sort", NBatches: nb, TimeoutS: 3000, TimeoutIsViolation: true},
+		{Name: "guarded", NBatches: 4, TimeoutS: 3000, TimeoutIsViolation: true},
 	}
 }
 
@@ -48,7 +49,9 @@ func (Prop) Describe(t vp.Tier) vp.Description {
 			"__index/__newindex/__len only results and the final contents of the backing table, and the proxy staying raw-empty). Stages: " +
 			"exhaustive tuples over strings of length <= 3/4 on {a,b,\\0} and sequences of length <= 3/4 with positions from " +
 			"{minint, minint+1, -len-2..len+2, maxint-1, maxint} and separators {\"\", \",\"}; random longer inputs; table.sort on 0..200/2000 " +
-			"elements with consistent, inconsistent, erroring and yielding comparators (sorted permutation / permutation kept / logical CPU budget). " +
+			"elements with consistent, inconsistent, erroring and yielding comparators (sorted permutation / permutation kept / logical CPU budget); " +
+			"stage guarded: insert/remove/move/sort/concat/unpack/ipairs/assignment on sequences of 0..33 elements HELD by a table with __index/__newindex handlers that record a fault " +
+			"when consulted for a raw non-nil key and otherwise act like a plain table - results and final raw contents must equal those of the same call on a plain copy. " +
 			"A case is non-trivial when the model gives a verdict (not 'skip') and at least one argument is outside the plain in-range case " +
 			"(a position <= 0 or > len, an extreme integer, an empty string/sequence, a proxy table, an error or a huge result) or, for sort, n >= 2; " +
 			"distinct by hash of the whole case.",
@@ -85,6 +88,8 @@ func (p Prop) RunBatch(c *vp.Child) {
 		r.random()
 	case "sort":
 		r.sortStage()
+	case "guarded":
+		r.guardedStage()
 	}
 }
 
